@@ -207,7 +207,10 @@ def replay_function(reg, c, oname, raw, search=True):
         except native.CannotLower as e:
             args, why = None, f'model is not a well-typed input: {e}'
         if args is not None:
-            pk = base64.b64encode(pickle.dumps(copy.deepcopy(args))).decode()
+            try:
+                pk = base64.b64encode(pickle.dumps(copy.deepcopy(args))).decode()
+            except Exception:
+                pk = None
             inputs = {k: native.describe_native(v) for k, v in args.items()}
             fails, info = native.native_check(c, reg, args)
             rec['info'] = info
@@ -240,7 +243,10 @@ def replay_function(reg, c, oname, raw, search=True):
                 break
             if args is None:
                 break
-            pk = pickle.dumps(copy.deepcopy(args))
+            try:
+                pk = pickle.dumps(copy.deepcopy(args))
+            except Exception:
+                pk = b''
             inputs = {k: native.describe_native(v) for k, v in args.items()}
             try:
                 fails, info = native.native_check(c, reg, args)
